@@ -408,6 +408,10 @@ func (fc *FnCtx) chanClose(ch Val, pos token.Pos) {
 		return
 	}
 	cv := call.Common().Args[0]
+	if fc.probe {
+		// the probe translation runs without the contract: every close counts as a write of the closed-state
+		fc.recordWrite(chanClosedName)
+	}
 	inv, class := fc.chanInvFor(cv)
 	if fc.chanOnce(class) {
 		// close of a closed channel panics
